@@ -175,6 +175,11 @@ func (dm *DMap) syncPutOnCluster(e *env, nt storage.Entry) error {
 	// Quorum based replication.
 	var successful int
 
+	// The encoded form keeps the key length in a single byte. Reject an oversized
+	// key before a truncated entry is shipped to the backup owners.
+	if len(nt.Key()) >= 256 {
+		return ErrKeyTooLarge
+	}
 	encodedEntry := nt.Encode()
 
 	owners := dm.s.backup.PartitionOwnersByHKey(e.hkey)
